@@ -185,6 +185,8 @@ def fam_maxvalue(ctx, rng):
     n = int(rng.choice([200, 1000]))
     comps = COMPS[int(rng.integers(0, 7))]
     items = gen_windows(rng, k, n, dt)
+    amp_scale = float(10 ** rng.uniform(-6, 3))          # absolute thresholds must work for any amplitude unit
+    items = [[a * amp_scale for a in arrs] for arrs in items]
     idx = ["ns", "ew", "vt"]
     maxima = np.array([max(np.max(np.abs(a[idx.index(c)])) for c in comps) for a in items])
     normalized = bool(rng.random() < 0.5)
